@@ -80,6 +80,7 @@ type ChainReq struct {
 	BodyGzip   bool   `json:"gzip_request_body,omitempty"`    // post target: the entity is sent gzip-coded and read with ReadEntity
 	PanicKind  int    `json:"panic_value_kind,omitempty"`     // 0 string, 1 error, 2 pointer to a struct implementing error, 3 struct with String, 4 runtime error (nil map)
 	CancelAt   string `json:"context_cancelled_at,omitempty"` // "start" or a point of the chain: the client went away, the request's context is done from there on
+	EarlyHints bool   `json:"handler_sends_103_early_hints_first,omitempty"`
 	NoStore    bool   `json:"handler_sets_cache_control_no_store,omitempty"`
 	FlushFirst bool   `json:"handler_flushes_before_first_write,omitempty"` // the streaming pattern: commit the header, then write
 	AddCE      bool   `json:"handler_adds_content_encoding_br,omitempty"`   // the route function declares its own payload br-coded: Header().Add, a layered coding
@@ -371,6 +372,10 @@ func (e *chainEnv) routeFunc(req *restful.Request, resp *restful.Response) {
 	e.crash("handler:before")
 	if r.AddCE {
 		resp.AddHeader("Content-Encoding", "br")
+	}
+	if r.EarlyHints {
+		resp.AddHeader("Link", "</style.css>; rel=preload")
+		resp.WriteHeader(http.StatusEarlyHints) // interim: the real status and the body follow
 	}
 	if r.NoStore {
 		resp.AddHeader("Cache-Control", "no-store")
@@ -921,6 +926,7 @@ func genChainReq(tp *sim.Tape, cfg *ChainCfg, k chainKnobs, id int) *ChainReq {
 	}
 	if k.encoding && isRouted(r.Target) {
 		r.NoStore = tp.Chance(80)
+		r.EarlyHints = tp.Chance(60)
 		r.FlushFirst = cfg.Flusher && tp.Chance(120)
 	}
 	if k.addCE && isRouted(r.Target) && r.PanicAt == "" && tp.Chance(50) {
